@@ -235,4 +235,5 @@ def run(ctx: Ctx, tier: str) -> Result:
         res.fail(Finding("C12.APPLY", hn.qname, hw[0] if hw else "<self._tp_config = new_config>", hn.loc(), "the trigger handler does not install exactly the configuration the listener passes on"))
     from .common import borrow
     borrow(ctx, res, tier, "c03", ("C03.MERGE",), "C12.MERGE", "tracepoints of a response are grouped by a key that tells different locations apart")
+    borrow(ctx, res, tier, "c13", ("C13.ADD",), "C12.NOTIFY", "every change of the configuration is submitted to the listeners")
     return res
